@@ -18,7 +18,7 @@ OPS_V = os.path.join(GEN_DIR, 'EmittedOps.v')
 EXT_V = os.path.join(GEN_DIR, 'ExtTable.v')
 TOOL = os.path.join(core.ROOT, 'tools', 'emitted_ops.py')
 OPS_CONFIGS = ('plain', 'keep')
-PROPS = ('C02', 'C04', 'C08')     # the properties whose gate includes the table lemma
+PROPS = ('C02', 'C04', 'C08', 'C12')     # the properties whose gate includes the table lemma
 
 STUB = """(* STUB written by pv/genops.py: the emitted code could not be lowered (%s).
    Empty tables: the non-vacuity lemma of Proofs/EmitTableP.v fails on purpose. *)
@@ -26,8 +26,10 @@ From Coq Require Import String.
 From PVGen Require Import EmitOps.
 Definition schema_plain : schema := [].
 Definition emitted_plain : list erow := [].
+Definition emitted_plain_async : list arow := [].
 Definition schema_keep : schema := [].
 Definition emitted_keep : list erow := [].
+Definition emitted_keep_async : list arow := [].
 """
 
 
@@ -100,8 +102,8 @@ def regen(gb):
             rust_of = {n: gb.schema.types[n]['rust'] for n in order}
             tables = {}
             for cfg in OPS_CONFIGS:
-                names, rows, stats[cfg] = eo.lower_config(gb.emitted[cfg], cfg, rust_of, order)
-                tables[cfg] = (names, rows)
+                names, rows, arows, stats[cfg] = eo.lower_config(gb.emitted[cfg], cfg, rust_of, order)
+                tables[cfg] = (names, rows, arows)
             text = eo.coq_file(schema_txt, tables, dg)
         except (eo.LowerError, eo.ParseError, KeyError, OSError) as e:
             _write(OPS_V, STUB % str(e).replace('*)', '* )')[:300])
